@@ -368,13 +368,12 @@ theorem applyFlags_inv (db : DB) (inv : DiskInv db) (k : Key) (fl : Nat) (hf : h
     · rw [keys_iset]
       simp [ilookup_key_mem k r db.index hl]
 
-def browseG (w : List (Key × Nat)) (k : Key) (r : Rec) : Rec :=
-  if hasFlag r.flags NO_BROWSE then r else { r with flags := applyBrowsingFlags r.flags (walkRes w k) }
+def browseG (w : List (Key × Nat)) (vs : Option (List Key)) (k : Key) (r : Rec) : Rec :=
+  if skipB false vs r.flags k then r else { r with flags := applyBrowsingFlags r.flags (walkRes w k) }
 
-theorem browseRec_eq (w : List (Key × Nat)) (kr : Key × Rec) :
-    browseRec false w kr = (kr.1, browseG w kr.1 kr.2) := by
+theorem browseRec_eq (w : List (Key × Nat)) (vs : Option (List Key)) (kr : Key × Rec) :
+    browseRec false w vs kr = (kr.1, browseG w vs kr.1 kr.2) := by
   unfold browseRec browseG
-  simp only [Bool.not_false, Bool.true_and]
   split <;> rfl
 
 theorem browse_inv (db : DB) (inv : DiskInv db) (w : List (Key × Nat)) (hw : WalkOK db.eager w) :
@@ -383,10 +382,11 @@ theorem browse_inv (db : DB) (inv : DiskInv db) (w : List (Key × Nat)) (hw : Wa
   have hc := (browse_cached db w inv.cached hw).1
   unfold browse at hc ⊢
   rw [h1] at hc ⊢
-  have hmap : db.index.map (browseRec false w) = db.index.map (fun kr => (kr.1, browseG w kr.1 kr.2)) := by
+  generalize vsOf false db w = vs at hc ⊢
+  have hmap : db.index.map (browseRec false w vs) = db.index.map (fun kr => (kr.1, browseG w vs kr.1 kr.2)) := by
     apply List.map_congr_left
     intro kr _
-    exact browseRec_eq w kr
+    exact browseRec_eq w vs kr
   rw [hmap] at hc ⊢
   apply inv_flags db inv
   · intro j
